@@ -112,6 +112,11 @@ def work(ctx, tier):
         sc = gen.rand_scenario(rng, p_special=0.0, p_budget=0.2, p_handler=0.2, p_abort=0.0)
         sc["place"]["hooks"] = rng.choice(["call", "policy", "both"])
         sc["fault"] = {"kind": "cb", "cb": "astart", "at": rng.randint(0, 3), "exc": "AbortRetryError"}
+        if k % 5 == 4:
+            # a policy without a retry component: the one attempt it makes can be called off by its start hook, too
+            sc["cfg"]["no_retry"] = True
+            sc["fault"]["at"] = 0
+            ctx.inc("start_hook_abort_scenarios_without_retry")
         for e in common.pick_entries(rng, entries, 3):
             _one(ctx, sc, e, stats)
         ctx.inc("start_hook_abort_scenarios")
